@@ -1020,9 +1020,28 @@ func (e *Exec) makeSlice(t types.Type, ln, cp *Term, lenT types.Type) Value {
 			panic(&goPanic{val: e.runtimeError("makeslice: len out of range"), site: e.site()})
 		}
 	}
-	n := e.concLen(cp, "make capacity")
-	if n > e.cfg.MaxConcretize && !cp.IsConst() {
-		panic(pathAbort{"bound", "make size beyond bound"})
+	var n int
+	if cp.IsConst() {
+		n = int(int64(cp.val))
+	} else {
+		// symbolic size: a backing array for the smallest threshold the size provably stays below
+		n = -1
+		if ub := upperBound(cp); ub <= 4096 {
+			n = int(ub)
+		} else {
+			for _, th := range []int64{64, 256, 1024, 4096} {
+				if !e.feasible(tb.Slt(e.c64(th), cp)) {
+					n = int(th)
+					break
+				}
+			}
+		}
+		if n < 0 {
+			panic(pathAbort{"bound", "make with a symbolic size that may exceed 4096 elements"})
+		}
+	}
+	if n > 1<<24 {
+		panic(pathAbort{"bound", "make size beyond 2^24"})
 	}
 	el := t.Underlying().(*types.Slice).Elem()
 	a := e.newArr(el, n, e.newObj("alloc", "makeslice@"+e.site()), nil)
